@@ -2,12 +2,18 @@
 Model of `cascade.low.builders` (after the `fix:` commits of C19):
 
   * `TaskBuilder.from_callable`   `fromCallable` : signature ↦ input schema, defaults, output schema
+  * `TaskBuilder.from_entrypoint` `fromEntrypoint`
   * `TaskBuilder.with_values`     `withValues`   : `{**old, **new}` on keyword and positional statics
   * `JobBuilder.with_node/with_edge`
   * `JobBuilder.build`            `build`        : static type check, `get_edge_errors` branch by
-                                                   branch, `Either.ok(job)` / `Either.error(list)`
-  * an append-only object store (`step`/`run`) in which every builder call creates a NEW object:
-    this is the statement that the Python code never mutates an existing builder / job.
+                                                   branch, "input fed by more than one edge" (the
+                                                   `fix:` commit of the audit round), `Either.ok(job)` /
+                                                   `Either.error(list)`
+  * an append-only object store (`step`/`run`) in which every builder call creates a NEW object.
+    NOTE: the model has values, not references: "building never mutates earlier objects" holds in it
+    by construction (`c19_persistent` only says that `run` extends the store). That clause of the
+    property is carried by the correspondence check, which re-reads EVERY earlier real object after
+    every call (complete `model_dump` fingerprints) and compares it with this append-only store.
 
 Python dicts are association lists with unique keys in insertion order (`dset` replaces in
 place or appends, exactly as `dict.__setitem__`).  `static_input_ps` is keyed by the position
@@ -49,21 +55,31 @@ deriving DecidableEq, Repr
 inductive Kind | posOnly | posOrKw | varPos | kwOnly | varKw
 deriving DecidableEq, Repr
 
+/-- an annotation as `inspect.signature` reports it -/
+inductive Ann
+  | absent                 -- `inspect._empty`
+  | named (s : Ty)         -- a string, or an object with a `__name__` (a class, `list[int]` ↦ "list", `Optional[int]` ↦ "Optional")
+  | nameless               -- an object without `__name__`: `None`, `int | None`
+deriving DecidableEq, Repr
+
 structure Param where
   name : String
   kind : Kind
-  ann : Option Ty          -- `none` = no annotation (`inspect._empty`)
+  ann : Ann
   dflt : Option Val        -- `none` = no default
 deriving DecidableEq, Repr
 
 structure Sig where
   params : List Param
-  ret : Option Ty
+  ret : Ann
 deriving DecidableEq, Repr
 
 structure TaskDef where
   inputSchema : List (String × Ty)
   outputSchema : List (String × Ty)
+  entrypoint : String := ""
+  environment : List String := []
+  hasFunc : Bool := true               -- `func` is a pickled callable (`from_callable`) or `None` (`from_entrypoint`)
 deriving DecidableEq, Repr
 
 structure Task where
@@ -75,22 +91,33 @@ deriving DecidableEq, Repr
 def defaultOutput : String := "0"       -- Node.DEFAULT_OUTPUT
 def anyTy : Ty := "Any"
 
-/-- `type2str` -/
-def type2str : Option Ty → Ty
-  | none => anyTy
-  | some s => if s = "_empty" then anyTy else s
+/-- `type2str` (with the fix: an annotation object without a `__name__` is not validated) -/
+def type2str : Ann → Ty
+  | .absent => anyTy
+  | .named s => if s = "_empty" then anyTy else s
+  | .nameless => anyTy
 
 def Kind.byKeyword : Kind → Bool
   | .kwOnly => true
   | .posOrKw => true
   | _ => false
 
-/-- `TaskBuilder.from_callable` -/
-def fromCallable (s : Sig) : Task :=
+/-- `TaskBuilder.from_callable(f, environment)` (`environment if environment else []`) -/
+def fromCallable (s : Sig) (environment : List String := []) : Task :=
   let kwp := s.params.filter (fun p => p.kind.byKeyword)
   { defn := { inputSchema := dictOf (kwp.map (fun p => (p.name, type2str p.ann)))
-              outputSchema := [(defaultOutput, type2str s.ret)] }
+              outputSchema := [(defaultOutput, type2str s.ret)]
+              entrypoint := "", environment := environment, hasFunc := true }
     kw := dictOf (kwp.filterMap (fun p => p.dflt.map (fun d => (p.name, d))))
+    ps := [] }
+
+/-- `TaskBuilder.from_entrypoint(entrypoint, input_schema, output_class, environment)` -/
+def fromEntrypoint (entrypoint : String) (inputSchema : List (String × Ty)) (outputClass : Ty)
+    (environment : List String := []) : Task :=
+  { defn := { inputSchema := dictOf inputSchema
+              outputSchema := [(defaultOutput, outputClass)]
+              entrypoint := entrypoint, environment := environment, hasFunc := false }
+    kw := []
     ps := [] }
 
 /-- `enumerate(args)` -/
@@ -141,6 +168,7 @@ inductive Problem
   | toNoTask (sink : String)                       -- "edge pointing to non-existent task {sink}"
   | toNoParam (p : String)                         -- "edge pointing to non-existent param {p}"
   | incompatible (e : Edge)                        -- "edge connects two incompatible nodes: {edge}"
+  | fedTwice (e : Edge)                            -- "edge pointing to an input that another edge already feeds: {edge}"
 deriving DecidableEq, Repr
 
 inductive Err | nameError
@@ -228,6 +256,16 @@ def collect : List (Except Err (List Problem)) → Except Err (List Problem)
 def staticChecks (env : TyEnv) (nodes : List (String × Task)) : List (Except Err (List Problem)) :=
   nodes.flatMap (fun nt => nt.2.kw.map (fun kv => staticCheck env nt.1 nt.2 kv.1 kv.2))
 
+/-- `(edge.sink_task, edge.sink_input_kw, edge.sink_input_ps)` -/
+def Edge.sinkInput (e : Edge) : String × Into := (e.sink, e.into)
+
+/-- `get_fan_in_errors`: every edge into a sink input that an EARLIER edge already feeds is a problem
+(`fed` = the sink inputs seen so far) -/
+def fanInErrors : List Edge → List (String × Into) → List Problem
+  | [], _ => []
+  | e :: es, fed =>
+    (if e.sinkInput ∈ fed then [.fedTwice e] else []) ++ fanInErrors es (e.sinkInput :: fed)
+
 /-- `JobBuilder.build` -/
 def build (env : TyEnv) (b : JobBuilder) : Except Err Result :=
   match collect (staticChecks env b.nodes) with
@@ -236,8 +274,8 @@ def build (env : TyEnv) (b : JobBuilder) : Except Err Result :=
     match collect (b.edges.map (edgeErrors env b.nodes)) with
     | .error e => .error e
     | .ok es =>
-      if s ++ es = [] then .ok (.job { tasks := b.nodes, edges := b.edges })
-      else .ok (.problems (s ++ es))
+      if s ++ es ++ fanInErrors b.edges [] = [] then .ok (.job { tasks := b.nodes, edges := b.edges })
+      else .ok (.problems (s ++ es ++ fanInErrors b.edges []))
 
 /-! ### object store: every builder call creates a new object -/
 
@@ -249,16 +287,18 @@ inductive Obj
 deriving Repr
 
 inductive Op
-  | fromCallable (s : Sig)
+  | fromCallable (s : Sig) (environment : List String)
+  | fromEntrypoint (entrypoint : String) (inputSchema : List (String × Ty)) (outputClass : Ty) (environment : List String)
   | withValues (t : Nat) (args : List Val) (kwargs : List (String × Val))
   | newBuilder
   | withNode (b : Nat) (name : String) (t : Nat)
-  | withEdge (b : Nat) (source sink : String) (into : Into) (frum : String)
+  | withEdge (b : Nat) (source sink : String) (into : Into) (frum : Option String)   -- `none`: argument omitted
   | build (b : Nat)
 deriving Repr
 
 def evalOp (env : TyEnv) (store : List Obj) : Op → Obj
-  | .fromCallable s => .task (fromCallable s)
+  | .fromCallable s environment => .task (fromCallable s environment)
+  | .fromEntrypoint ep schema out environment => .task (fromEntrypoint ep schema out environment)
   | .withValues t args kwargs =>
     match store[t]? with
     | some (.task tk) => .task (withValues tk args kwargs)
@@ -270,7 +310,10 @@ def evalOp (env : TyEnv) (store : List Obj) : Op → Obj
     | _, _ => .invalid
   | .withEdge b source sink into frum =>
     match store[b]? with
-    | some (.builder jb) => .builder (withEdge jb source sink into frum)
+    | some (.builder jb) =>
+      match frum with
+      | some f => .builder (withEdge jb source sink into f)
+      | none => .builder (withEdge jb source sink into)
     | _ => .invalid
   | .build b =>
     match store[b]? with
